@@ -336,6 +336,9 @@ def compose(unit, outdir):
             raise Undecided(f"lost anchor: {f} does not exist")
         src = srcs.setdefault(f, open(p).read())
         if "struct" in e and "fn" not in e:
+            if re.search(r"\bstruct\s+" + re.escape(e["struct"]) + r"\s*;", src):
+                structs.append(f"pub struct {e['struct']};")
+                continue
             a, o, b = find_struct(src, e["struct"])
             keep = e.get("keep", "").split(",")
             fields_txt = src[o + 1:b - 1]
@@ -618,10 +621,33 @@ def run_units(prop, units, tiers, log, only=None):
             if it:
                 obl_items.setdefault(o, it[0])
         failed_items = {n for n, v in bd.items() if not v["success"]}
+        limit_msgs = [msg for (_k, msg) in errs if re.search(r"rlimit|Resource limit|timed out|timeout", msg)]
+        if limit_msgs:
+            # solver gave up: undecided, never a violation
+            entry.update(status="undecided", reason="solver resource limit: " + "; ".join(limit_msgs)[:300])
+            res[u.name] = entry
+            continue
         flagged = set()
         for (k, msg) in errs:
             if k in clause_obl:
                 flagged.add(clause_obl[k])
+        # A failed Verus obligation is DECISIVE (reported as a violation) only when the item is straight-line
+        # code and the failing condition is a contract clause or an arithmetic-safety check: there the SMT query
+        # is (linear) arithmetic over one path set and no proof artefact is involved.  A failure inside an item
+        # with loops (inductive invariants) or at a spliced proof-block assertion means the PROOF no longer goes
+        # through -- the code may be a harmless rewrite -- so it is reported as undecided ("proof lost") and the
+        # paired Kani harness of the same property, which runs in the same check, supplies the counterexample
+        # if the behaviour really changed.
+        range_by_name = {n: (l1, l2) for (n, l1, l2) in ranges}
+
+        def item_has_loop(item):
+            if item not in range_by_name:
+                return True
+            l1, l2 = range_by_name[item]
+            return bool(loop_keywords_in("\n".join(lines[l1 - 1:l2])))
+        decisive_msgs = ("postcondition not satisfied", "precondition not satisfied", "possible arithmetic underflow/overflow",
+                         "possible division by zero", "possible bit shift underflow/overflow")
+        proof_lost = []
         for o, item in obl_items.items():
             b = bd.get(item)
             if b is None:
@@ -630,10 +656,19 @@ def run_units(prop, units, tiers, log, only=None):
             if b["success"]:
                 entry["obligations_ok"].append({"name": o, "item": item, "time_s": b["time_s"], "rlimit": b["rlimit"]})
             else:
+                item_errs = [(k, msg) for (k, msg) in errs if (item_of_line(k) or ("",))[0] == item]
                 item_flagged = [x for x in flagged if obl_items.get(x) == item]
+                msgs = [f"line {k}: {msg}: {lines[k-1].strip()[:160]}" for (k, msg) in item_errs]
+                decisive = (not item_has_loop(item)) and item_errs and all(any(msg.startswith(d) for d in decisive_msgs) for (_k, msg) in item_errs)
+                if not decisive:
+                    proof_lost.append(f"{o} ({item}): " + "; ".join(msgs)[:300])
+                    continue
                 if o in flagged or not item_flagged:
-                    msgs = [f"line {k}: {msg}: {lines[k-1].strip()[:160]}" for (k, msg) in errs if (item_of_line(k) or ("",))[0] == item]
                     entry["obligations_failed"].append({"name": o, "item": item, "detail": "; ".join(msgs)[:800]})
+        if proof_lost and not entry["obligations_failed"]:
+            entry.update(status="undecided", reason="proof lost (loop invariant / proof-block assertion no longer verifies; not a decisive refutation): " + " | ".join(proof_lost)[:600])
+            res[u.name] = entry
+            continue
         if entry.get("no_query"):
             entry.update(status="undecided", reason="no SMT query generated for: " + ", ".join(entry["no_query"]))
             res[u.name] = entry
